@@ -152,10 +152,17 @@ impl Dictionary for MutableDictionary {
         };
         let longest_word_len = misspelled_charslice.len() + max_distance as usize;
 
+        // The edit distance below is computed in `u8` rows: nothing longer than 255 characters
+        // can be compared, whichever side it is on.
+        if misspelled_charslice.len() > u8::MAX as usize {
+            return Vec::new();
+        }
+
         // Get candidate words
-        let words_to_search = self
-            .words_iter()
-            .filter(|word| (shortest_word_len..=longest_word_len).contains(&word.len()));
+        let words_to_search = self.words_iter().filter(|word| {
+            word.len() <= u8::MAX as usize
+                && (shortest_word_len..=longest_word_len).contains(&word.len())
+        });
 
         // Pre-allocated vectors for the edit-distance calculation
         // 53 is the length of the longest word.
